@@ -287,6 +287,36 @@ def datasets(flavour):
         vd = g.get_validation_data()
         if vd['start_year'] != a or vd['until_year'] != b or sorted(vd['test_data']) != sorted(cur):
             problems.append('validation data of the %s generator: range %s..%s, zones %s' % (nm, vd['start_year'], vd['until_year'], sorted(vd['test_data'])))
+    # the same zone and range with and without DST-only changes requested, in that order: where the library exhibits a change of
+    # the DST offset alone, the second generator must bracket it although the first one (rightly) did not
+    import pytz as _pytz
+    for zone, a, b in (('America/Indiana/Knox', 2005, 2008), ('Asia/Amman', 2021, 2024)):
+        try:
+            gf = G(start_year=a, until_year=b, sampling_interval=22, detect_dst_transition=False)
+            gf.create_test_data([zone])
+            gt = G(start_year=a, until_year=b, sampling_interval=22, detect_dst_transition=True)
+            gt.create_test_data([zone])
+        except TypeError:
+            break
+        sf, st_ = snap(gf).get(zone, []), snap(gt).get(zone, [])
+        # does the library exhibit a DST-only change in the range? (asked through its public API at the items of either run)
+        tz = _pytz.timezone(zone) if flavour == 'pytz' else None
+        if tz is None:
+            from dateutil.tz import gettz as _gettz
+            tz = _gettz(zone)
+        lo = int((dtm.datetime(a, 1, 1) - dtm.datetime(2000, 1, 1)).total_seconds())
+        hi = int((dtm.datetime(b, 1, 1) - dtm.datetime(2000, 1, 1)).total_seconds())
+        dst_only = []
+        prev = None
+        for e in range(lo, hi, 3600):
+            d = dtm.datetime.fromtimestamp(e + 946684800, tz=UTC).astimezone(tz)
+            cur = (d.utcoffset(), d.dst())
+            if prev is not None and cur[0] == prev[0] and cur[1] != prev[1]:
+                dst_only.append(e)
+            prev = cur
+        for e in dst_only:
+            if not any(e - 3700 <= t <= e and ty in 'ABab' for t, ty in st_):
+                problems.append('generator with detect_dst_transition=True run after one with False (%s %d..%d): the DST-only change near epoch %d is not bracketed' % (zone, a, b, e))
     g1.create_test_data(['Europe/Paris'])
     if sorted(snap(g1)) != ['Europe/Paris']:
         problems.append('a second create_test_data() on one generator: data set holds %s, given [Europe/Paris]' % sorted(snap(g1)))
